@@ -10,5 +10,6 @@ CONSTANTS
   Ops <- mcOps
   ProbeLrus <- mcProbe
   MaxLevel = 4
+  EmitT = FALSE
 INVARIANT EmitFull
 CHECK_DEADLOCK FALSE
